@@ -36,3 +36,20 @@ Proof.
   - destruct (luamin_end_to_end cfg src ss HB E) as (out' & Ho' & H1 & H2). rewrite Ho in Ho'. injection Ho' as <-. auto.
   - unfold holds_C01, holds_C19. rewrite E. auto.
 Qed.
+
+(* the identifiers of the written text, aligned with those of the source, satisfy the instance
+   predicate of C02 (consistent, injective, reserved names kept, generated names fresh) *)
+From PV Require Import Generated.T_luanames Proofs.NameFactoryProofs Proofs.HoldsC02Proofs.
+
+Theorem luamin_identifiers cfg src ss : Forall byte src -> spec_toks src = Some ss ->
+  exists out ss', luamin_text cfg [src] = Ok out /\ spec_toks out = Some ss' /\
+    length (sig_toks ss') = length (sig_toks ss) /\
+    holds_C02 (keep_all cfg) (keep_list cfg) preserved_names
+      (ident_names (sig_toks ss)) (ident_names (sig_toks ss')) = true.
+Proof.
+  intros HB H. destruct (lexer_agrees_model src ss HB H) as (ts & Hm & Ha).
+  destruct (minify_total cfg ts) as (chunks & Hc).
+  destruct (luamin_preserves cfg src ss ts chunks H Ha Hc) as (ss' & Hout & Hv & Hfac & _).
+  exists (concat chunks), ss'. split; [unfold luamin_text; rewrite Hm; cbn [bind]; rewrite Hc; reflexivity|].
+  split; [exact Hout|]. split; [symmetry; eapply all2_length, Hv|]. apply model_satisfies_holds, Hfac.
+Qed.
